@@ -39,20 +39,12 @@ func (ex *Exec) mapHeap(st *State, comp string) string {
 	return n
 }
 
-func (ex *Exec) lenToIdx(s string) string {
-	if ex.vc.mode == ModeBV {
-		return sx("(_ int2bv 64)", s)
-	}
-	return s
-}
+func (ex *Exec) lenToIdx(s string) string { return s }
 
 func (ex *Exec) mapLen(st *State, m Term) Value {
 	mc := ex.mapCompsOf(m.T)
 	l := sx("select", ex.mapHeap(st, mc.ln), m.S)
 	ex.assume(st, sx("<=", "0", l))
-	if ex.vc.mode == ModeBV {
-		panic(unsupported("len(map) in bv mode"))
-	}
 	return Term{S: l, T: types.Typ[types.Int]}
 }
 
